@@ -117,6 +117,9 @@ func init() {
 	}
 	intrinsics["time.After"] = func(e *Exec, g *G, fn *ssa.Function, args []Value) (Value, bool) {
 		ch := &ChanObj{ID: e.newID(), Cap: 1, Name: "time.After"}
+		if d, ok := args[0].(*Term); ok {
+			e.timerDurs = append(e.timerDurs, d)
+		}
 		if e.hcfg != nil && e.hcfg.Timers {
 			e.addTimer(ch, "timer")
 		}
